@@ -37,8 +37,8 @@ func TestC36(t *testing.T) {
 	m.Gate("kind_injected:duplicate-confirm", perKind/2, "second CONFIRM for the same channel")
 	m.Gate("kind_injected:random-bytes", perKind/2, "random bytes behind valid type octets")
 	m.Gate("calls_blocked_at_transport_end", total/50, "SendRequest/OpenChannel calls still blocked when the transport ended (they all returned)")
-	m.Gate("global_replies_matched", total/8, "global replies matched to the waiting call")
-	m.Gate("open_confirms_matched", total/4, "OpenChannel results matched to a CONFIRM")
+	m.Gate("replies_matched:global", total/8, "global replies matched to the waiting call")
+	m.Gate("replies_matched:open-confirm", total/4, "OpenChannel results matched to a CONFIRM")
 	m.Gate("legal_dialogues_survived", perKind/2, "unperturbed dialogues that ran to the harness close without a connection error")
 }
 
